@@ -7,8 +7,7 @@ Local Open Scope Z_scope.
 (* pods on the host network and pods labelled as ignored are admitted unchanged *)
 Theorem c18_untouched_hostnet_ignored : forall i,
   i_hostnet i = true \/ (i_ncont i <> 0 /\ i_ignored i = true) -> pod_webhook i = Allowed.
-Proof. intros i [H|[Hc H]]; unfold pod_webhook; rewrite H; [reflexivity|].
-  destruct (i_hostnet i); [reflexivity|]. destruct (i_ncont i =? 0) eqn:E; [reflexivity|]. reflexivity. Qed.
+Proof. exact c18_untouched_hostnet_ignored_pf. Qed.
 Print Assumptions c18_untouched_hostnet_ignored.
 
 (* outside centralized IPAM, an unmarked pod without network annotations that matches no network
@@ -18,19 +17,14 @@ Theorem c18_untouched_no_match : forall i,
   i_has_nets i = false -> i_has_req i = false -> i_has_pning i = false ->
   i_ns_exists i = true -> (i_fixed_name i && i_prev_err i = false) ->
   match_one (i_fixed_name i) (i_pns i) = None -> pod_webhook i = Allowed.
-Proof.
-  intros i Hc Hu H1 H2 H3 Hns Hpe Hm. unfold pod_webhook. rewrite H1, H2, H3, Hc, Hu, Hns, Hpe, Hm. cbn [andb orb negb].
-  destruct (i_hostnet i); [reflexivity|]. destruct (i_ncont i =? 0); [reflexivity|]. destruct (i_ignored i); [reflexivity|].
-  destruct (i_pns i); reflexivity.
-Qed.
+Proof. exact c18_untouched_no_match_pf. Qed.
 Print Assumptions c18_untouched_no_match.
 
 Theorem c18_conflicting_annotations_denied : forall i,
   i_hostnet i = false -> i_ncont i <> 0 -> i_ignored i = false ->
   ((i_has_nets i && i_has_req i) || (i_has_nets i && i_has_pning i) || (i_has_req i && i_has_pning i)) = true ->
   pod_webhook i = Denied.
-Proof. intros i H1 H2 H3 H4. unfold pod_webhook. rewrite H1, H3, H4.
-  destruct (i_ncont i =? 0) eqn:E; [apply Z.eqb_eq in E; contradiction | reflexivity]. Qed.
+Proof. exact c18_conflicting_annotations_denied_pf. Qed.
 Print Assumptions c18_conflicting_annotations_denied.
 
 (* every patched pod carries a non-empty network list whose entries have a name of 1..5
@@ -38,46 +32,30 @@ Print Assumptions c18_conflicting_annotations_denied.
    device request equal to the number of networks *)
 Theorem c18_complete : forall i ns c e aff,
   Forall alloc_in (i_nets i) -> pod_webhook i = Patched ns c e aff -> complete i ns c.
-Proof.
-  intros i ns c e aff Hal. unfold pod_webhook.
-  assert (Hd : alloc_in {| w_iflen := 4; w_ifid := 1; w_nvsw := 0; w_nsg := 0; w_alloc := 0; w_attach_eni := false |})
-    by (unfold alloc_in; cbn; split; discriminate).
-  assert (Hk : forall k a b, alloc_in (of_pn k a b)) by (intros k a b; unfold alloc_in, of_pn; cbn; destruct (k_fixed k); split; discriminate).
-  repeat match goal with
-         | |- (if ?b then _ else _) = _ -> _ => destruct b; try discriminate
-         end.
-  destruct (if i_has_nets i then i_nets i else []) as [|n0 r0] eqn:En.
-  - repeat match goal with
-           | |- (if ?b then _ else _) = _ -> _ => destruct b; try discriminate
-           end.
-    destruct (if i_has_req i then i_reqs i else []) as [|q0 qr] eqn:Eq.
-    + destruct (i_pns i) as [|k0 kr] eqn:Ep.
-      * destruct (negb (i_crd i) && negb (i_use_eni i)); [discriminate|].
-        apply finish_complete; [discriminate | constructor; [exact Hd | constructor]].
-      * destruct (negb (i_ns_exists i)); [discriminate|].
-        destruct (match_one (i_fixed_name i) (k0 :: kr)) as [k|].
-        -- apply finish_complete; [discriminate | constructor; [apply Hk | constructor]].
-        -- destruct (negb (i_crd i) && negb (i_use_eni i)); [discriminate|].
-           apply finish_complete; [discriminate | constructor; [exact Hd | constructor]].
-    + destruct (requests true [] (q0 :: qr)) as [[rs z]|] eqn:Er; [|discriminate].
-      destruct (requests_zones _ _ _ _ _ Er) as (_ & _ & Hlen).
-      apply finish_complete.
-      * destruct rs; [discriminate Hlen | discriminate].
-      * clear -Er Hk. revert Er. generalize true, (@nil Z). revert rs z.
-        induction (q0 :: qr) as [|q l IH]; intros rs z f acc; cbn [requests].
-        -- intros H; inversion H; constructor.
-        -- destruct (negb _ || negb _ || _); [discriminate|].
-           destruct (requests false _ l) as [[ns' z']|] eqn:E; [|discriminate].
-           intros H; inversion H; subst. constructor; [destruct (q_iflen q =? 0); apply Hk | eapply IH; exact E].
-  - apply finish_complete; [discriminate|].
-    destruct (i_has_nets i); [rewrite <- En; exact Hal | discriminate].
-Qed.
+Proof. exact c18_complete_pf. Qed.
 Print Assumptions c18_complete.
+
+(* ... and every entry carries vSwitches and security groups whenever the cluster's eni-config has some
+   (after the repair 'fix: fill eni-config defaults for every interface', not only eth0) *)
+Theorem c18_vswitch_sg_present : forall i ns c e aff,
+  Forall alloc_in (i_nets i) -> pod_webhook i = Patched ns c e aff ->
+  i_cfg_nvsw i <> 0 -> i_cfg_nsg i <> 0 ->
+  Forall (fun n => w_nvsw n <> 0 /\ w_nsg n <> 0) ns.
+Proof. exact c18_vswitch_sg_present_pf. Qed.
+Print Assumptions c18_vswitch_sg_present.
+
+(* at most ten security groups per entry (the eni-config reader refuses more than ten, so
+   i_cfg_nsg <= 10 whenever the configuration was readable) *)
+Theorem c18_at_most_ten_sg : forall i ns c e aff,
+  Forall alloc_in (i_nets i) -> pod_webhook i = Patched ns c e aff ->
+  i_cfg_nsg i <= 10 -> Forall (fun n => w_nsg n <= 10) ns.
+Proof. exact c18_at_most_ten_sg_pf. Qed.
+Print Assumptions c18_at_most_ten_sg.
 
 (* the zones put into the node affinity for a network request lie in the zones of EVERY requested network *)
 Theorem c18_zone_affinity : forall qs ns z,
   requests true [] qs = Some (ns, z) -> forall q, In q qs -> incl z (k_zones (q_pn q)).
-Proof. intros qs ns z H. exact (proj1 (requests_zones _ _ _ _ _ H)). Qed.
+Proof. exact c18_zone_affinity_pf. Qed.
 Print Assumptions c18_zone_affinity.
 
 Example c18_ex :
